@@ -970,11 +970,29 @@ theorem invM_freeHook {env : Env W HS} {P : St W HS → Prop} {Q : Val → Prop}
   | none => exact invM_pure _ _ trivial
   | some cfg =>
     simp only
-    refine invM_bind (invM_lookup kit x hx) fun v hv => ?_
-    split
-    · exact invM_bind (QA := Q) (fun st hp => kit.interact st x .noneV _ v false hp (kit.nUser _ hx) (Or.inr hv))
-        fun _ _ => invM_pure _ _ trivial
-    · exact invM_pure _ _ trivial
+    have inner : InvM P Q Q (lookup env x >>= fun v =>
+        if shouldInstr cfg x [] then interactSem env x .noneV (annValOpt env none) v false else pure v) := by
+      refine invM_bind (invM_lookup kit x hx) fun v hv => ?_
+      split
+      · exact fun st hp => kit.interact st x .noneV _ v false hp (kit.nUser _ hx) (Or.inr hv)
+      · exact invM_pure _ _ hv
+    intro st hp
+    have h1 := inner st hp
+    dsimp only
+    rcases hi : (lookup env x >>= fun v =>
+        if shouldInstr cfg x [] then interactSem env x .noneV (annValOpt env none) v false else pure v) st with ⟨r, st1⟩
+    rw [hi] at h1
+    cases r with
+    | ok v => exact ⟨h1.1, trivial⟩
+    | err e =>
+      simp only
+      split
+      · exact ⟨h1.1, h1.2⟩
+      · split
+        · split
+          · exact ⟨h1.1, trivial⟩
+          · exact ⟨h1.1, h1.2⟩
+        · exact ⟨h1.1, Or.inr (kit.nameError _)⟩
 
 theorem invM_freeHooks {env : Env W HS} {P : St W HS → Prop} {Q : Val → Prop} {N : String → Prop} (kit : InvKitN env P Q N) :
     (xs : List String) → (∀ x ∈ xs, isUser x = true) → InvM P Q (fun _ => True) (freeHooks env xs)
